@@ -279,6 +279,24 @@ func ruleR36(c *Ctx) {
 				return false
 			case *ast.IfStmt:
 				cmpToken(x.Cond)
+				// if … { A } else { B }: one of the two runs. What both do is counted once (so that
+				// two arms that repeat a statement weigh the same as the statement moved behind the
+				// if); what only one of them does is counted as it is
+				if eb, ok := x.Else.(*ast.BlockStmt); ok && x.Init == nil {
+					thenBag, elseBag := bagT{}, bagT{}
+					walkInto(x.Body, thenBag)
+					walkInto(eb, elseBag)
+					for k, v := range thenBag {
+						w := elseBag[k]
+						out[k] += max(v, w)
+					}
+					for k, w := range elseBag {
+						if _, both := thenBag[k]; !both {
+							out[k] += w
+						}
+					}
+					return false
+				}
 			case *ast.ForStmt:
 				if x.Cond != nil {
 					cmpToken(x.Cond)
@@ -711,9 +729,10 @@ func ruleR36(c *Ctx) {
 					continue
 				}
 				ev, atoms := split(s)
-				for i := 0; i < x[s]; i++ {
-					out[ev] = append(out[ev], occ{ev, atoms, s})
-				}
+				// the same outcome under the very same conditions counts once: whether two arms that
+				// the tracked conditions do not tell apart both have it, or the statement follows the
+				// arms, is a matter of form (how often a path has it is R03/R04's business)
+				out[ev] = append(out[ev], occ{ev, atoms, s})
 			}
 			return out
 		}
@@ -727,41 +746,29 @@ func ruleR36(c *Ctx) {
 		}
 		for _, ev := range sortedKeys(evs) {
 			xs, ys := ea[ev], eb[ev]
-			// bipartite matching by augmenting paths
-			matchY := make([]int, len(ys))
-			for i := range matchY {
-				matchY[i] = -1
-			}
-			var try func(i int, seen []bool) bool
-			try = func(i int, seen []bool) bool {
+			// every outcome of one copy has a counterpart in the other whose conditions do not
+			// contradict its own (how many times a path has an outcome is R03/R04's business; two
+			// arms that the tracked conditions do not tell apart may be one statement in the other copy)
+			for i := range xs {
+				found := false
 				for j := range ys {
-					if seen[j] || !compatible(xs[i].atoms, ys[j].atoms) {
-						continue
-					}
-					seen[j] = true
-					if matchY[j] == -1 || try(matchY[j], seen) {
-						matchY[j] = i
-						return true
+					if compatible(xs[i].atoms, ys[j].atoms) {
+						found = true
 					}
 				}
-				return false
-			}
-			matchedX := make([]bool, len(xs))
-			for i := range xs {
-				if try(i, make([]bool, len(ys))) {
-					matchedX[i] = true
-				}
-			}
-			for j, i := range matchY {
-				if i >= 0 {
-					matchedX[i] = true
-				} else {
-					onlyB = append(onlyB, fmt.Sprintf("%q", ys[j].full))
-				}
-			}
-			for i := range xs {
-				if !matchedX[i] {
+				if !found {
 					onlyA = append(onlyA, fmt.Sprintf("%q", xs[i].full))
+				}
+			}
+			for j := range ys {
+				found := false
+				for i := range xs {
+					if compatible(xs[i].atoms, ys[j].atoms) {
+						found = true
+					}
+				}
+				if !found {
+					onlyB = append(onlyB, fmt.Sprintf("%q", ys[j].full))
 				}
 			}
 		}
